@@ -90,6 +90,10 @@ def sweep() -> dict:
     return out
 
 
+def external_digest() -> str:
+    return _h(repr(external_sig()))
+
+
 def s1_digest() -> dict:
     """The residual state the property's anchors name (reporting only)."""
     d = {}
@@ -124,6 +128,35 @@ def component_dump(obj) -> str:
 # --------------------------------------------------------------------------
 
 _SMALL = (int, float, bool, type(None))
+
+
+def external_sig():
+    """Process-global state outside the package that library code could plausibly
+    touch (cheap probes only): cwd, environment, decimal context, locale,
+    recursion limit, warning filters, tempfile default, polars string-cache flag."""
+    import decimal
+    import locale
+    import os
+    import tempfile
+    import warnings
+
+    try:
+        cwd = os.getcwd()
+    except OSError:
+        cwd = None
+    ctx = decimal.getcontext()
+    try:
+        loc = locale.getlocale()
+    except Exception:  # noqa: BLE001
+        loc = None
+    try:
+        import polars as pl
+
+        pl_sc = pl.using_string_cache()
+    except Exception:  # noqa: BLE001
+        pl_sc = None
+    return (cwd, hash(frozenset(os.environ.items())), ctx.prec, ctx.rounding, loc, sys.getrecursionlimit(),
+            len(warnings.filters), tempfile.tempdir, pl_sc)
 
 
 class FastSig:
@@ -267,4 +300,4 @@ class FastSig:
                 out.append(None)
                 continue
             out.append(len(v) if depth == 0 else sh(v, depth))
-        return hash((ids, tuple(out)))
+        return hash((ids, tuple(out), external_sig()))
